@@ -5,9 +5,9 @@ from regcommon import *
 
 META = dict(
     engine='RegTable.tla',
-    technique='TLA+ spec RegTable.tla / RegTableMC.tla (TLC graph of four tables with every block read and iteration range from every state, all edges replayed; block read = projection of the flat word space, first unmapped address; iteration = ascending list of registers overlapping the range cut at the first non-zero callback result); register_block_read / register_foreach_in are driven over a seeded small-scope table family x every window position x callback scripts, and TLC validates every recorded call with RegTableTrace.tla',
+    technique='TLA+ spec RegTable.tla / RegTableMC.tla (TLC graph of six tables with every block read and iteration range from every state, all edges replayed; block read = projection of the flat word space, first unmapped address; iteration = ascending list of registers overlapping the range cut at the first non-zero callback result); register_block_read / register_foreach_in are driven over a seeded small-scope table family x every window position x callback scripts, and TLC validates every recorded call with RegTableTrace.tla',
     level='For each table of the generated family (areas readable and write-only, gaps and holes, multi-word registers) every block read (address in the window +-1, length 0..9, exact-size destination under ASan) and every iteration range (address, length) with callback scripts (all zero; +1 or -1 at call k for every k) is executed after a few block writes made the content non-trivial; TLC validates each recorded call: success iff all addresses mapped, the words in order with zero for non-readable areas, first unmapped address otherwise; the sequence of handles the callback saw, the result and the failure address.',
-    note='Trusted: TLC, harness/regtab.c, ASan for writes outside the destination. Address arithmetic near 2^32 is not exercised.',
+    note='Trusted: TLC, harness/regtab.c, ASan for writes outside the destination. Tables are also run at high base addresses (straddling 2^16 / 2^31, ending at 0xFFFFFFFE); an area reaching 2^32 itself and requests wrapping past it are not exercised. One table has 66000 registers (handles beyond 2^16).',
 )
 
 
